@@ -1,10 +1,250 @@
-// Operand-stack invariants (C05), checked at every instruction boundary. Filled in later.
+// Operand-stack invariants (C05), checked at every instruction boundary through the H1 hooks.
+// Nothing here modifies the VM; it only reads frames and values of the active context.
+//
+//  I1  frame bases are non-decreasing and never above the stack height
+//  I2  directly after an end_statement in frame F the height equals F's base
+//  I3  a scope that is left contributes exactly one value to its caller (never zero, never several)
+//  I4  the operands below a frame's base are the same objects, in the same order, as when the frame was
+//      pushed - checked whenever frames have been removed by any path (completion, exitWith, breakOut,
+//      throw, error recovery) and at every instruction boundary for the live top frame
+//  I5  a context's stack is identical between the end of one of its slices and the start of its next
+//  I6  every restart of a frame's code (loop iteration) begins at the same height as the first
 #include "sim.h"
+#include "opcodes/end_statement.h"
+
+#include <unordered_map>
+
+using namespace sqf::runtime;
+
 namespace sim
 {
-    void stackmon_before(sqf::runtime::runtime&, sqf::runtime::instruction&) {}
-    void stackmon_after(sqf::runtime::runtime&, sqf::runtime::instruction&) {}
-    void stackmon_frame_done(sqf::runtime::runtime&) {}
-    void stackmon_slice_begin(sqf::runtime::runtime&) {}
-    void stackmon_slice_end(sqf::runtime::runtime&) {}
+    namespace
+    {
+        struct ShadowFrame
+        {
+            size_t base = 0;
+            std::vector<const void*> below; // identity of values[0..base) when the frame was first seen
+            struct Heights { size_t runs = 0, first = 0, second = 0; };
+            std::unordered_map<const void*, Heights> heights; // per code (first instruction) of this scope
+            size_t last_position = ~(size_t)0;
+        };
+        struct ShadowCtx
+        {
+            std::vector<ShadowFrame> frames;
+            std::string last_instr = "<start>";
+            bool has_slice_snapshot = false;
+            std::vector<const void*> slice_snapshot;
+            size_t slice_frames = 0;
+            bool pending_done = false;       // on_frame_done seen, on_frame_popped not yet
+            size_t done_base = 0;
+        };
+        std::unordered_map<const context*, ShadowCtx> shadows;
+
+        const void* ident(const value& v) { return v.data().get(); }
+
+        std::vector<const void*> take(context& c, size_t n)
+        {
+            std::vector<const void*> out;
+            out.reserve(n);
+            size_t i = 0;
+            for (auto it = c.values_begin(); it != c.values_end() && i < n; ++it, ++i) out.push_back(ident(*it));
+            return out;
+        }
+        std::vector<size_t> bases(context& c)
+        {
+            std::vector<size_t> b;
+            for (auto it = c.frames_rend(); it != c.frames_rbegin();) { --it; b.push_back(it->value_stack_pos()); }
+            return b; // outermost first
+        }
+        void report(const std::string& rule, ShadowCtx& sh, const std::string& detail)
+        {
+            g->mon(rule, sh.last_instr, detail);
+        }
+
+        // brings the shadow in line with the live frames; checks I1, I3, I4 on the way
+        void sync(context& c, ShadowCtx& sh, const char* when)
+        {
+            auto b = bases(c);
+            size_t height = c.values_size();
+            // I1
+            size_t prev = 0;
+            for (size_t i = 0; i < b.size(); i++)
+            {
+                if (b[i] < prev) { report("I1", sh, std::string("frame bases decrease at depth ") + std::to_string(i) + " " + when); break; }
+                prev = b[i];
+            }
+            if (!b.empty() && b.back() > height)
+            {
+                report("I1", sh, "top frame base " + std::to_string(b.back()) + " above stack height " + std::to_string(height) + " " + when);
+            }
+            // find the first depth where shadow and live frames differ
+            size_t common = 0;
+            while (common < sh.frames.size() && common < b.size() && sh.frames[common].base == b[common]) common++;
+            if (common < sh.frames.size())
+            {
+                // frames [common..) of the shadow are gone (or replaced): the outermost removed one decides
+                auto& gone = sh.frames[common];
+                size_t upto = std::min(gone.base, height);
+                // A handler (catch / except__) that took over restarts with fresh code and resets its OWN region;
+                // only what lies below its base belongs to its callers then.
+                bool takeover = !c.empty() && c.current_frame().position() == sqf::runtime::frame::position_invalid && common == b.size() && common > 0;
+                if (takeover) upto = std::min(upto, b.back());
+                auto now = take(c, upto);
+                for (size_t i = 0; i < upto; i++)
+                {
+                    if (now[i] != gone.below[i])
+                    {
+                        report("I4", sh, "operand #" + std::to_string(i) + " below a left scope (base " + std::to_string(gone.base) + ") was replaced " + when);
+                        break;
+                    }
+                }
+                bool replaced = common < b.size(); // a new frame sits at this depth already (exitWith, loop exchange)
+                bool by_breakout = sh.last_instr.find("breakout") != std::string::npos;
+                if (takeover) { g->probe("handler_takeovers"); }
+                else if (!replaced && common > 0 && height > gone.base + 1)
+                {
+                    report("I3", sh, "a left scope contributed " + std::to_string(height - gone.base) + " values to its caller (base " + std::to_string(gone.base) + ", height " + std::to_string(height) + ") " + when);
+                }
+                else if (!replaced && common > 0 && by_breakout && height == gone.base)
+                {
+                    report("I3", sh, std::string("a scope left by breakOut contributed no value to its caller ") + when);
+                }
+                sh.frames.resize(common);
+            }
+            // new frames
+            for (size_t i = sh.frames.size(); i < b.size(); i++)
+            {
+                ShadowFrame f;
+                f.base = b[i];
+                f.below = take(c, std::min(b[i], height));
+                sh.frames.push_back(std::move(f));
+            }
+            // I4 for the live top frame: nothing below its base may change while it runs
+            if (!sh.frames.empty())
+            {
+                auto& top = sh.frames.back();
+                size_t upto = std::min(top.base, height);
+                if (top.below.size() >= upto)
+                {
+                    auto now = take(c, upto);
+                    for (size_t i = 0; i < upto; i++)
+                    {
+                        if (now[i] != top.below[i])
+                        {
+                            report("I4", sh, "operand #" + std::to_string(i) + " below the running scope (base " + std::to_string(top.base) + ") was replaced " + when);
+                            top.below = now; // report once
+                            break;
+                        }
+                    }
+                }
+            }
+        }
+    }
+
+    void stackmon_before(runtime& rt, instruction& in)
+    {
+        auto act = rt.context_active_as_shared();
+        if (!act) return;
+        auto& sh = shadows[act.get()];
+        sync(*act, sh, "before an instruction");
+        // I6: restart of the top frame's code
+        if (!act->empty() && !sh.frames.empty())
+        {
+            auto& fr = act->current_frame();
+            auto& top = sh.frames.back();
+            if (fr.position() == 0)
+            {
+                // Restarts of the same code (same first instruction) are loop iterations. The first run may start one
+                // higher (placeholder pushed by the operator that created the scope); from the second run on the height
+                // must stay the same, and it may never grow. A scope whose code was exchanged (switch target, catch
+                // block, while condition/body) is tracked per code.
+                size_t h = act->values_size();
+                auto& hs = top.heights[&in];
+                if (hs.runs == 0) { hs.first = h; }
+                else if (hs.runs == 1)
+                {
+                    hs.second = h;
+                    if (h > hs.first) report("I6", sh, "second iteration starts at height " + std::to_string(h) + ", the first started at " + std::to_string(hs.first));
+                }
+                else if (hs.second != h)
+                {
+                    report("I6", sh, "iteration " + std::to_string(hs.runs + 1) + " starts at height " + std::to_string(h) + ", earlier iterations started at " + std::to_string(hs.second));
+                    hs.second = h;
+                }
+                hs.runs++;
+            }
+        }
+        sh.last_instr = in.to_string();
+    }
+
+    void stackmon_after(runtime& rt, instruction& in)
+    {
+        auto act = rt.context_active_as_shared();
+        if (!act) return;
+        auto& sh = shadows[act.get()];
+        if (!act->empty()) sync(*act, sh, "right after the instruction");
+        if (dynamic_cast<sqf::opcodes::end_statement*>(&in) != nullptr && !act->empty())
+        {
+            if (act->values_size() != act->current_frame().value_stack_pos())
+            {
+                report("I2", sh, "after a statement separator " + std::to_string(act->values_size() - act->current_frame().value_stack_pos()) + " operands of the finished statement remain");
+            }
+        }
+    }
+
+    void stackmon_frame_done(runtime& rt)
+    {
+        auto act = rt.context_active_as_shared();
+        if (!act || act->empty()) return;
+        auto& sh = shadows[act.get()];
+        sync(*act, sh, "when a scope finished");
+        sh.pending_done = true;
+        sh.done_base = act->current_frame().value_stack_pos();
+        g->probe("scopes_finished");
+    }
+
+    void stackmon_frame_popped(runtime& rt, bool had_value)
+    {
+        auto act = rt.context_active_as_shared();
+        if (!act) return;
+        auto& sh = shadows[act.get()];
+        if (!sh.pending_done) return;
+        sh.pending_done = false;
+        if (act->empty()) return;          // the script's outermost scope has no caller
+        size_t height = act->values_size();
+        if (height != sh.done_base + 1)
+        {
+            report("I3", sh, "a finished scope contributed " + std::to_string((long)height - (long)sh.done_base) + " values to its caller instead of exactly one");
+        }
+        if (!sh.frames.empty()) sh.frames.pop_back();   // keep the shadow in step: the finished frame is gone
+        if (!had_value) g->probe("scopes_finished_without_own_value");
+    }
+
+    void stackmon_slice_begin(runtime& rt)
+    {
+        auto act = rt.context_active_as_shared();
+        if (!act) return;
+        auto& sh = shadows[act.get()];
+        if (sh.has_slice_snapshot)
+        {
+            auto now = take(*act, act->values_size());
+            if (now != sh.slice_snapshot || act->frames_size() != sh.slice_frames)
+            {
+                report("I5", sh, "the stack of a context changed while it was not running (" + std::to_string(sh.slice_snapshot.size()) + " -> " + std::to_string(now.size()) + " values)");
+            }
+        }
+    }
+
+    void stackmon_slice_end(runtime& rt)
+    {
+        auto act = rt.context_active_as_shared();
+        if (!act) return;
+        auto& sh = shadows[act.get()];
+        // a scope that finished as the very last thing of the slice: check its contribution now
+        sh.has_slice_snapshot = true;
+        sh.slice_snapshot = take(*act, act->values_size());
+        sh.slice_frames = act->frames_size();
+        if (act->empty()) { shadows.erase(act.get()); }
+    }
+
 }
